@@ -261,6 +261,32 @@ impl Session {
         Ok(out)
     }
 
+    /// A scan that keeps what the iterator yielded even when it ends with an error: (entries in the
+    /// order they were yielded, the iterator's final status).
+    pub fn scan_keeping_partial(&self, snapshot: Option<&Snapshot>, backward: bool) -> Result<(Vec<(Vec<u8>, Vec<u8>)>, Option<String>), String> {
+        let _g = watch::enter("scan(partial)");
+        let mut iter = self.db().new_iterator(self.read_options(snapshot)).map_err(|e| err_string(&e))?;
+        let mut out = vec![];
+        let positioned = if backward { iter.seek_to_last() } else { iter.seek_to_first() };
+        if let Err(e) = positioned {
+            return Ok((out, Some(err_string(&e))));
+        }
+        while iter.is_valid() && out.len() < 1_000_000 {
+            let (k, v) = iter.current().unwrap();
+            out.push((k.clone(), v.clone()));
+            if backward {
+                iter.prev();
+            } else {
+                iter.next();
+            }
+            if out.len() % 256 == 0 {
+                watch::tick();
+            }
+        }
+        let status = iter.status().map(|e| err_string(&e));
+        Ok((out, status))
+    }
+
     /// Backward scan, returned in ascending order.
     pub fn scan_back(&self, snapshot: Option<&Snapshot>) -> Result<Vec<(Vec<u8>, Vec<u8>)>, String> {
         let _g = watch::enter("scan_back");
